@@ -13,7 +13,7 @@ if TYPE_CHECKING:
 
 PHC_REGEX = re.compile(
     r"\$(?P<id>[a-z0-9-]{1,32})"
-    r"(\$v=(?P<version>[0-9]{1,10}))?"
+    r"(\$v=(?P<version>0|[1-9][0-9]{0,9}))?"
     r"\$(?P<params>[a-z0-9-]{1,32}=[a-zA-Z0-9/+.-]+(,([a-z0-9-]{1,32}=[a-zA-Z0-9/+.-]+))*)"
     r"\$(?P<salt>[a-zA-Z0-9/+.-]{11,64})"
     r"\$(?P<hash>[a-zA-Z0-9/+.-]{16,86})"
@@ -96,8 +96,11 @@ def _choose_definition(
 
 def _convert_param(type_: type, value: str):
     # int() on its own also accepts a sign, which the parameter alphabet allows
-    if type_ is int and not (value.isascii() and value.isdigit()):
-        raise ValueError(f"not a decimal number: {value!r}")
+    if type_ is int and (
+        not (value.isascii() and value.isdigit())
+        or (value.startswith("0") and value != "0")
+    ):
+        raise ValueError(f"not a canonical decimal number: {value!r}")
     return type_(value)
 
 
